@@ -8,14 +8,14 @@ CHECKS["C05"] = dict(
     engine="RZ3",
     technique="SMT (z3 regular-expression theory): language inclusion between the real compiled glob regex and the specification's reference language, path length unbounded, globs enumerated to a bound",
     text="For every glob over {a . / * \\} up to length 4 (quick) / 6 (thorough) plus seeded random longer globs, z3 decides for ALL paths of ANY length that narrow-reading ⊆ compiled matcher ⊆ wide-reading, separately for LF-free and LF-containing paths, and that a multi-glob item is the union of its globs. Bounded in the glob, unbounded in the path; counterexamples are replayed through AnnotationsItem.matches before being reported.",
-    note="Trusted: z3 5.1 regex solver, re._parser as definition of pattern syntax, vf/re2z3.py (validated each run on solver-produced member/non-member witnesses through the real matches()). The method matches() calls is read from its AST. Four known findings (LF artefact, escaped asterisk, star before escape, globstar swallowing '/') are listed in known_findings.json and excused only in their failing direction.",
+    note="Trusted: z3 5.1 regex solver, re._parser as definition of pattern syntax, vf/re2z3.py (validated each run on solver-produced member/non-member witnesses through the real matches()). The method matches() calls is read from its AST. The four translation defects this check found (LF artefact, escaped asterisk, star before escape, globstar swallowing '/') are repaired in /repo (fix: 8bd9f0b); no known-finding class remains, every departure from the specified language is a VIOLATION.",
 )
 
 CHECKS["C17"] = dict(
     engine="RZ3",
     technique="SMT (z3 regular-expression theory): language equivalence between python-debian's compiled dep5 matcher and the matcher of the REUSE.toml produced by the real converter, paths unbounded, dep5 globs enumerated to a bound",
     text="For every valid dep5 glob over {a . / * ? \\} up to length 4 (quick) / 5 (thorough) plus random longer ones, the real pipeline dep5 -> Copyright -> toml_from_dep5 -> ReuseTOML.from_toml is run and z3 decides, for ALL normalised project-relative paths of any length, that the dep5 matcher and the converted matcher accept the same paths; for two globs per paragraph and two paragraphs the last-match-wins attribution languages are compared the same way, and the attributed copyright/licence/precedence are compared on solver-produced witnesses through the two real reuse_info_of methods.",
-    note="Trusted: z3, re._parser, vf/re2z3.py, python-debian/tomlkit executed concretely. The command body itself is explored with CrossHair over a path model whose write may fail (REUSE.toml is written before dep5 is removed; refusal without dep5). Outside: whole lint report, real OS failures. Known findings: '?' wildcard, doubled escaped asterisk, LF, and the REUSE.toml matcher's own C05 findings inherited through '*/' -> '**/'.",
+    note="Trusted: z3, re._parser, vf/re2z3.py, python-debian/tomlkit executed concretely. The command body itself is explored with CrossHair over a path model whose write may fail (REUSE.toml is written before dep5 is removed; refusal without dep5). Outside: whole lint report, real OS failures. Known findings (listed, excused only inside their class and direction): the '?' wildcard, and dep5 '*/' becoming '**/', which in REUSE.toml also stands for zero directories. The doubled escaped asterisk is repaired (fix: bed545d) and the matcher's former C05 findings with it (fix: 8bd9f0b).",
 )
 
 CHECKS["C12"] = dict(
